@@ -10,6 +10,7 @@
   answer    <hex of the reference frame> <decode status>
      decode status: the reference *collector* (Wire.collect) is run on the frame around the `go` payload and
      its result compared with pcode, license hash, type and fields of the request:  ok | nogo | decfail | diff | badtype
+  stream <hex of a connection's bytes>  →  <whole frames> <bytes left over> <payload lengths>
   collect <hex of a frame>  →  <pcode> <license hash> <pack type>   |  fail
   an unknown key is answered  badkey:<key>
 
@@ -304,6 +305,13 @@ def answer (line : String) : String :=
   | ["hash", hex] =>
     match ofHex hex with
     | some bs => s!"{hash64 bs}"
+    | none => "bad-op"
+  | ["stream", hex] =>
+    -- a connection's byte stream: <number of whole frames> <bytes left over> <payload length of each frame,…>
+    match ofHex hex with
+    | some bs =>
+      let (frs, rest) := parseStream bs.length bs
+      s!"{frs.length} {rest.length} {listOf (fun (f : FrameParts) => toString f.payload.length) frs}"
     | none => "bad-op"
   | ["collect", hex] =>
     match (ofHex hex).bind collect with
